@@ -1,0 +1,24 @@
+//go:build verif
+
+// Contracts for the deductive checker in /verif (govc). Comment-only; ignored without the
+// "verif" build tag.
+
+package types
+
+// C17: the owner the access-control list names for a key is the address of the FIRST entry with that key
+//@ func (a ACL) GetOwner(permKey string) (r sdk.Address)
+//@   props C17
+//@   ensures forall i int :: (0 <= i && i < len(a) && a[i].Key == permKey && (forall j int :: 0 <= j && j < i ==> a[j].Key != permKey)) ==> r == a[i].Addr
+//@   ensures (forall j int :: 0 <= j && j < len(a) ==> a[j].Key != permKey) ==> r == nil
+//@   loop 1 invariant 0 - 1 <= #rangeindex && #rangeindex < len(a)
+//@   loop 1 invariant forall j int :: 0 <= j && j <= #rangeindex ==> a[j].Key != permKey
+//@   loop 1 frame
+//@   loop 1 decreases len(a) - #rangeindex
+
+// the bank as seen by gov: same contracts as the x/auth keeper methods that implement it
+//@ iface func (ak AuthKeeper) GetModuleAccount(ctx sdk.Ctx, moduleName string) (r exported.ModuleAccountI)
+//@   same_as x/auth/keeper.Keeper.GetModuleAccount
+//@ iface func (ak AuthKeeper) SendCoinsFromModuleToAccount(ctx sdk.Ctx, senderModule string, recipientAddr sdk.Address, amt sdk.Coins) (err sdk.Error)
+//@   same_as x/auth/keeper.Keeper.SendCoinsFromModuleToAccount
+//@ iface func (ak AuthKeeper) BurnCoins(ctx sdk.Ctx, name string, amt sdk.Coins) (err sdk.Error)
+//@   same_as x/auth/keeper.Keeper.BurnCoins
